@@ -279,7 +279,8 @@ class Run:
                 unconfirmed += 1
                 if len(self.notes) < 5:
                     self.notes.append({"unconfirmed_candidate": c,
-                                       "detail": r.get("detail")})
+                                       "detail": r.get("detail"),
+                                       "file": write_replay(self.pid + "_unconfirmed", c)})
                 continue
             fid = None
             if classify is not None:
